@@ -2130,6 +2130,9 @@ func (g *Gen) loopFrame(li *loopInfo, pre, ns *State, direct map[string]bool) {
 				} else if common.IsInvoke() {
 					callees = g.prog.calleesAt(g.fn, call)
 				}
+			} else if callee := common.StaticCallee(); callee != nil && !common.IsInvoke() {
+				// go / defer of a known function or closure: what it can write does not depend on when it runs
+				callees = []*ssa.Function{callee}
 			}
 			if len(callees) == 0 {
 				resolvable = false
